@@ -85,13 +85,13 @@ theorem transM_ctor (cfg : Cfg) (sh : Shared) (n t : Nat) (pc : MPc) (r : MRegs)
     cases k <;> simp only [transM]
     · exact plain _ _ (drainReturn_nctor { sh with owner := none } r false) (by rfl)
     all_goals exact plain _ _ (by simp [ctorPc]) (by rfl)
-  | sFlagUA =>
+  | sFlagUA ep =>
     simp only [transM]; split
     · exact plain _ _ (dtorEarly_nctor { sh with owner := none } r) (by rfl)
     · split
       · exact plain _ _ (shutdownReturn_nctor { sh with owner := none } r) (by rfl)
       · exact plain _ _ (by simp [ctorPc]) (by rfl)
-  | sDoneZ =>
+  | sDoneZ ep =>
     simp only [transM]; split
     · exact plain _ _ (shutdownReturn_nctor sh r) (by rfl)
     · exact plain _ _ (by simp [ctorPc]) (by rfl)
@@ -106,7 +106,7 @@ theorem transM_ctor (cfg : Cfg) (sh : Shared) (n t : Nat) (pc : MPc) (r : MRegs)
   | jUnone =>
     simp only [transM]; split
     · exact plain _ _ (by simp [ctorPc]) (by rfl)
-    · exact plain _ _ (shutdownReturn_nctor { sh with owner := none } r) (by rfl)
+    · exact plain _ _ (shutdownReturn_nctor _ r) (by rfl)
   | p2Z =>
     simp only [transM]; split
     · exact plain _ _ (by simp [ctorPc]) (by rfl)
@@ -200,7 +200,7 @@ theorem stepEff_len (cfg : Cfg) (sh : Shared) (n t : Nat) (th : Thread) (alt : N
   | pick _ _ _ _ _ ht => left; rw [ht]; exact List.length_erase_le
   | quiesce _ _ _ _ _ ht => left; rw [ht]; exact Nat.le_refl _
   | joined _ _ _ _ h => left; rw [h.threads]; exact Nat.le_refl _
-  | setShut _ _ _ _ _ ht => left; rw [ht]; exact Nat.le_refl _
+  | setShut _ _ _ _ _ _ ht => left; rw [ht]; exact Nat.le_refl _
   | restart hth => rw [hth] at hnr; cases hnr
 
 /-- a thread is about to create a worker after the step only if it was before, or it has just pushed with room left -/
@@ -222,7 +222,7 @@ theorem stepEff_atCreate (cfg : Cfg) (sh : Shared) (n t : Nat) (th : Thread) (al
   | pick _ _ hw => rw [hw] at hc; simp [atCreate] at hc
   | quiesce _ _ hw => rw [hw] at hc; simp [atCreate] at hc
   | joined _ _ _ hw => rw [hw] at hc; simp [atCreate] at hc
-  | setShut _ _ hw => rw [hw] at hc; simp [atCreate] at hc
+  | setShut _ _ _ hw => rw [hw] at hc; simp [atCreate] at hc
   | restart hth => rw [hth] at hnr; cases hnr
 
 def isCCth : Thread → Nat
